@@ -297,6 +297,8 @@ impl<T> RcInner<T> {
                 Ordering::SeqCst,
             ) {
                 Ok(_) => {
+                    #[cfg(feature = "circ_verif")]
+                    crate::verif::ev(crate::verif::kind::STAMP_WRITE, self as *const Self as usize, epoch, 0);
                     return true;
                 }
                 Err(curr) => old = State::from_raw(curr),
@@ -467,6 +469,8 @@ unsafe fn dispose_general_node<T: RcObject>(
                     RcInner::decrement_strong(rc, 1, Some(guard));
                     return;
                 }
+                #[cfg(feature = "circ_verif")]
+                crate::verif::yp(crate::verif::site::TRY_DESTRUCT_CAS, &rc.state as *const AtomicU64 as usize);
                 match rc.state.compare_exchange(
                     state.as_raw(),
                     state.with_destructed(true).as_raw(),
